@@ -128,19 +128,17 @@ theorem bodyPos_consume (c : CState) (n : Nat) (h : bodyPos c) : bodyPos (consum
 /-- what an operation at level `k` that moved the cursor from `pos` to `pos'` leaves of the enclosing levels -/
 def Keeps (k : Nat) (r : RS) (pos : Nat) (r' : RS) (pos' : Nat) : Prop :=
   pos ≤ pos' ∧ (1 ≤ k → E0 r' pos' = E0 r pos) ∧ (2 ≤ k → E1 r' pos' = E1 r pos) ∧
-  (k ≤ 1 → r'.l2 = r.l2) ∧ (k = 0 → r'.l1 = r.l1) ∧
   (1 ≤ k → chunkId r'.l0 = chunkId r.l0 ∧ (bodyPos r.l0 → bodyPos r'.l0)) ∧
   (2 ≤ k → chunkId r'.l1 = chunkId r.l1 ∧ (bodyPos r.l1 → bodyPos r'.l1))
 
 theorem Keeps.refl (k : Nat) (r : RS) (pos : Nat) : Keeps k r pos r pos :=
-  ⟨Nat.le_refl _, fun _ => rfl, fun _ => rfl, fun _ => rfl, fun _ => rfl, fun _ => ⟨rfl, id⟩, fun _ => ⟨rfl, id⟩⟩
+  ⟨Nat.le_refl _, fun _ => rfl, fun _ => rfl, fun _ => ⟨rfl, id⟩, fun _ => ⟨rfl, id⟩⟩
 
 theorem Keeps.trans {k : Nat} {r1 r2 r3 : RS} {p1 p2 p3 : Nat} (a : Keeps k r1 p1 r2 p2) (b : Keeps k r2 p2 r3 p3) :
     Keeps k r1 p1 r3 p3 :=
   ⟨Nat.le_trans a.1 b.1, fun h => (b.2.1 h).trans (a.2.1 h), fun h => (b.2.2.1 h).trans (a.2.2.1 h),
-    fun h => (b.2.2.2.1 h).trans (a.2.2.2.1 h), fun h => (b.2.2.2.2.1 h).trans (a.2.2.2.2.1 h),
-    fun h => ⟨(b.2.2.2.2.2.1 h).1.trans (a.2.2.2.2.2.1 h).1, fun x => (b.2.2.2.2.2.1 h).2 ((a.2.2.2.2.2.1 h).2 x)⟩,
-    fun h => ⟨(b.2.2.2.2.2.2 h).1.trans (a.2.2.2.2.2.2 h).1, fun x => (b.2.2.2.2.2.2 h).2 ((a.2.2.2.2.2.2 h).2 x)⟩⟩
+    fun h => ⟨(b.2.2.2.1 h).1.trans (a.2.2.2.1 h).1, fun x => (b.2.2.2.1 h).2 ((a.2.2.2.1 h).2 x)⟩,
+    fun h => ⟨(b.2.2.2.2 h).1.trans (a.2.2.2.2 h).1, fun x => (b.2.2.2.2 h).2 ((a.2.2.2.2 h).2 x)⟩⟩
 
 theorem Keeps.lim {k : Nat} {r r' : RS} {pos pos' : Nat} (h : Keeps k r pos r' pos') (hk : 1 ≤ k) :
     limOf r' k pos' = limOf r k pos := by
@@ -151,7 +149,7 @@ theorem Keeps.lim {k : Nat} {r r' : RS} {pos pos' : Nat} (h : Keeps k r pos r' p
 /-- consuming `n` bytes within the limit, then setting level `k`, keeps the enclosing geometry -/
 theorem keeps_consume_set (r : RS) (k n pos : Nat) (c : CState) (hk : k ≤ 2)
     (hn : ∀ m, r.bound k = some m → n ≤ m) : Keeps k r pos ((r.consume k n).set k c) (pos + n) := by
-  refine ⟨by omega, ?_, ?_, ?_, ?_, ?_, ?_⟩
+  refine ⟨by omega, ?_, ?_, ?_, ?_⟩
   · intro h1
     match k, hk, h1 with
     | 1, _, _ =>
@@ -177,12 +175,6 @@ theorem keeps_consume_set (r : RS) (k n pos : Nat) (c : CState) (hk : k ≤ 2)
     split
     · rename_i h0; subst h0; rfl
     · dsimp only; rw [bodyRemaining_consume]; omega
-  · intro h1
-    match k, h1 with
-    | 0, _ => simp only [RS.consume, RS.set]; split <;> rfl
-    | 1, _ => simp only [RS.consume, RS.set]; split <;> rfl
-  · intro h0; subst h0
-    simp only [RS.consume, RS.set]; split <;> rfl
   · intro h1
     match k, hk, h1 with
     | 1, _, _ =>
@@ -1231,6 +1223,535 @@ theorem still_rel (L start : Nat) (r : RS) (pos : Nat) (cs : List Chunk) (flags 
           · exact absurd hf hnoalph
           · exact Or.inr ⟨hf, v, by rw [ha]; rfl, Or.inr ⟨by rw [← hname]; exact hv8l, seen4⟩⟩
       · exact Tri.fail
+
+/-! ### peeked headers, and the view of a level from the level above -/
+
+/-- the header of chunk `c` has been read ahead at level `k` (after the tiling `cs`) and is kept for the next call -/
+def Peeked (L start : Nat) (r : RS) (k pos : Nat) (cs : List Chunk) (c : Chunk) : Prop :=
+  ∃ e, CChain s L start e cs ∧ c = hdrAt s e ∧ e + 8 ≤ L ∧ r.get k = .peeking c.name c.len ∧ pos = c.off
+
+/-- level `k` is between chunks, possibly with the next header already peeked -/
+def Bnd (L start : Nat) (r : RS) (k pos : Nat) (cs : List Chunk) : Prop :=
+  Closed s L start r k pos cs ∨ ∃ c, Peeked s L start r k pos cs c
+
+theorem pos_le_lim (r : RS) (k pos : Nat) (h1k : 1 ≤ k) : pos ≤ limOf r k pos := by
+  match k, h1k with
+  | 1, _ => simp only [limOf, E0]; omega
+  | k + 2, _ => simp only [limOf, E0, E1]; omega
+
+/-- T4: peeking at the next header -/
+theorem peek_next (L start : Nat) (r : RS) (k pos : Nat) (cs : List Chunk) (hk : k ≤ 2) (h1k : 1 ≤ k)
+    (hL : limOf r k pos = L) (hc : Closed s L start r k pos cs) :
+    Tri (idealOps s kind) (peekHeader r k) pos
+      (fun x pos' => Keeps k r pos x.2 pos' ∧ limOf x.2 k pos' = L ∧
+        ((x.1 = none ∧ x.2.get k = .idle ∧ CChain s L start pos' cs ∧ (L ≤ pos' ∨ s.len ≤ pos')) ∨
+         (∃ c, x.1 = some c.name ∧ Peeked s L start x.2 k pos' cs c))) := by
+  apply Tri.mono (peekHeader_rel s kind r k pos hk hc.state)
+  intro x p1 ⟨hkeep, hpad, hrest⟩
+  rw [hL] at hpad hrest
+  have hch := hc.bdry s h1k hpad
+  refine ⟨hkeep, by rw [hkeep.lim h1k, hL], ?_⟩
+  rcases hrest with ⟨a1, a2, a3, a4⟩ | ⟨a1, a2, a3, a4, a5⟩
+  · left
+    refine ⟨a1, a2, by rw [a3]; exact hch, ?_⟩
+    rw [a3]
+    rcases a4 with ⟨_, b⟩ | b
+    · exact Or.inl b
+    · exact Or.inr b
+  · right
+    exact ⟨hdrAt s (bdry (r.get k) pos), a1, bdry (r.get k) pos, hch, rfl, a2 h1k, a5, by rw [a4]; rfl⟩
+
+/-- peeking again returns the kept header -/
+theorem peek_again (L start : Nat) (r : RS) (k pos : Nat) (cs : List Chunk) (c : Chunk) (hk : k ≤ 2) (h1k : 1 ≤ k)
+    (hL : limOf r k pos = L) (hp : Peeked s L start r k pos cs c) :
+    Tri (idealOps s kind) (peekHeader r k) pos
+      (fun x pos' => Keeps k r pos x.2 pos' ∧ limOf x.2 k pos' = L ∧ Peeked s L start x.2 k pos' cs c ∧
+        x.1 = some c.name) := by
+  obtain ⟨e, e1, e2, e3, hst, e5⟩ := hp
+  unfold peekHeader
+  apply Tri.bind
+  apply Tri.mono (readPadding_rel s kind r k pos hk)
+  intro r1 p1 ⟨hkeep, hst1⟩
+  rw [hst] at hst1
+  obtain ⟨h1, h2⟩ := hst1
+  rw [h1]
+  dsimp only
+  refine Tri.done ⟨hkeep, by rw [hkeep.lim h1k, hL], ⟨e, e1, e2, e3, h1, by rw [h2]; exact e5⟩, rfl⟩
+
+/-- T5: `read_header(name)` on a peeked header opens that chunk (if it has the expected name) -/
+theorem open_peeked (L start : Nat) (r : RS) (k pos : Nat) (cs : List Chunk) (c : Chunk) (name : Bytes) (hk : k ≤ 2)
+    (h1k : 1 ≤ k) (hL : limOf r k pos = L) (hp : Peeked s L start r k pos cs c) :
+    Tri (idealOps s kind) (readHeader r k name) pos
+      (fun r' pos' => Keeps k r pos r' pos' ∧ limOf r' k pos' = L ∧ c.name = name ∧ Open s L start r' k pos' cs c ∧
+        pos' = c.off) := by
+  obtain ⟨e, e1, e2, e3, hst, e5⟩ := hp
+  apply Tri.mono (readHeader_peeked s kind r k pos name hk c.name c.len hst)
+  intro r' p1 ⟨hkeep, hp1, hn, hget⟩
+  refine ⟨hkeep, by rw [hkeep.lim h1k, hL], hn, ⟨e, e1, e2, e3, ?_⟩, by rw [hp1]; exact e5⟩
+  have : p1 = e + 8 := by rw [hp1, e5, e2]; rfl
+  rw [this]
+  have hc := cur_fresh s L r' k e (by rw [← e2]; exact hget) (fun _ => e3)
+  rw [← e2] at hc
+  exact hc
+
+/-- T5': `read_any_header` on a peeked header -/
+theorem open_peeked_any (L start : Nat) (r : RS) (k pos : Nat) (cs : List Chunk) (c : Chunk) (hk : k ≤ 2)
+    (h1k : 1 ≤ k) (hL : limOf r k pos = L) (hp : Peeked s L start r k pos cs c) :
+    Tri (idealOps s kind) (readAnyHeader r k) pos
+      (fun x pos' => Keeps k r pos x.2 pos' ∧ limOf x.2 k pos' = L ∧ x.1 = c.name ∧ Open s L start x.2 k pos' cs c ∧
+        pos' = c.off) := by
+  obtain ⟨e, e1, e2, e3, hst, e5⟩ := hp
+  apply Tri.mono (readAnyHeader_peeked s kind r k pos hk c.name c.len hst)
+  intro x p1 ⟨hkeep, hp1, hn, hget⟩
+  refine ⟨hkeep, by rw [hkeep.lim h1k, hL], hn, ⟨e, e1, e2, e3, ?_⟩, by rw [hp1]; exact e5⟩
+  have : p1 = e + 8 := by rw [hp1, e5, e2]; rfl
+  rw [this]
+  have hc := cur_fresh s L x.2 k e (by rw [← e2]; exact hget) (fun _ => e3)
+  rw [← e2] at hc
+  exact hc
+
+/-- the chunk a lower level is in, seen again after operations of a higher level: the same chunk, with the cursor
+    where those operations left it -/
+theorem cur_keep1 (L : Nat) (r r' : RS) (pos pos' : Nat) (c : Chunk) (hc : Cur L r 1 pos c)
+    (hk : Keeps 2 r pos r' pos') (hle : pos' ≤ L) : Cur L r' 1 pos' c := by
+  unfold Cur at hc ⊢
+  have hE := hk.2.2.1 (by decide)
+  obtain ⟨hid, hbp⟩ := hk.2.2.2.2 (by decide)
+  simp only [RS.get] at hc ⊢
+  simp only [E1] at hE
+  cases h1 : r.l1 with
+  | idle => rw [h1] at hc; exact hc.elim
+  | peeking a b => rw [h1] at hc; exact hc.elim
+  | body name len rem =>
+    rw [h1] at hc hid hE hbp
+    obtain ⟨c1, c2, c3, c4⟩ := hc
+    have hbp' : bodyPos r'.l1 := hbp (by intro a b c' hh; simp only [CState.body.injEq] at hh; omega)
+    cases h2 : r'.l1 with
+    | idle => rw [h2] at hid; simp [chunkId] at hid
+    | peeking a b => rw [h2] at hid; simp [chunkId] at hid
+    | body n2 l2 rem2 =>
+      rw [h2] at hid hE
+      simp only [chunkId, Option.some.injEq, Prod.mk.injEq] at hid
+      simp only [bodyRemaining] at hE
+      exact ⟨by rw [hid.1]; exact c1, by rw [hid.2]; exact c2, by omega, hbp' _ _ _ h2⟩
+    | padding n2 l2 =>
+      rw [h2] at hid hE
+      simp only [chunkId, Option.some.injEq, Prod.mk.injEq] at hid
+      simp only [bodyRemaining] at hE
+      exact ⟨by rw [hid.1]; exact c1, by rw [hid.2]; exact c2, by omega, fun _ => by omega⟩
+  | padding name len =>
+    rw [h1] at hc hid hE hbp
+    obtain ⟨c1, c2, c3, c4⟩ := hc
+    have hbp' : bodyPos r'.l1 := hbp (by intro a b c' hh; cases hh)
+    have hp := hk.1
+    cases h2 : r'.l1 with
+    | idle => rw [h2] at hid; simp [chunkId] at hid
+    | peeking a b => rw [h2] at hid; simp [chunkId] at hid
+    | body n2 l2 rem2 =>
+      rw [h2] at hE
+      simp only [bodyRemaining] at hE
+      have := hbp' _ _ _ h2
+      omega
+    | padding n2 l2 =>
+      rw [h2] at hid hE
+      simp only [chunkId, Option.some.injEq, Prod.mk.injEq] at hid
+      simp only [bodyRemaining] at hE
+      exact ⟨by rw [hid.1]; exact c1, by rw [hid.2]; exact c2, by omega, fun _ => by omega⟩
+
+/-! ### one animation frame -/
+
+theorem read3 (p : Nat) : s.read p 3 = [s.get p, s.get (p + 1), s.get (p + 2)] := by
+  simp [Stream.read, List.range_succ]
+
+theorem read16 (p : Nat) : s.read p 16 = [s.get p, s.get (p+1), s.get (p+2), s.get (p+3), s.get (p+4), s.get (p+5),
+    s.get (p+6), s.get (p+7), s.get (p+8), s.get (p+9), s.get (p+10), s.get (p+11), s.get (p+12), s.get (p+13),
+    s.get (p+14), s.get (p+15)] := by
+  simp [Stream.read, List.range_succ]
+
+/-- T1 from a boundary where the next header may already have been peeked -/
+theorem next_header_b (L start : Nat) (r : RS) (k pos : Nat) (cs : List Chunk) (hk : k ≤ 2) (h1k : 1 ≤ k)
+    (hL : limOf r k pos = L) (hb : Bnd s L start r k pos cs) :
+    Tri (idealOps s kind) (readAnyHeader r k) pos
+      (fun x pos' => Keeps k r pos x.2 pos' ∧ limOf x.2 k pos' = L ∧
+        ∃ c, x.1 = c.name ∧ Open s L start x.2 k pos' cs c ∧ pos' = c.off) := by
+  rcases hb with hc | ⟨c, hp⟩
+  · apply Tri.mono (next_header s kind L start r k pos cs hk h1k hL hc)
+    intro x p1 ⟨a, b, c, d, e, f, _⟩
+    exact ⟨a, b, c, d, e, f⟩
+  · apply Tri.mono (open_peeked_any s kind L start r k pos cs c hk h1k hL hp)
+    intro x p1 ⟨a, b, d, e, f⟩
+    exact ⟨a, b, c, d, e, f⟩
+
+/-- what the model has established about the chunks inside one ANMF frame of declared size fw x fh -/
+def FrameBody (L2 : Nat) (alphaFlag allow : Bool) (fw fh : Nat) (inner : List Chunk) : Prop :=
+  ∃ pre v us, inner = pre ++ [v] ++ us ∧ us.all isUnknown = true ∧ (us.isEmpty = true ∨ allow = true) ∧
+    ((pre = [] ∧ (v.name = FVP8 ∨ (v.name = FVP8L ∧ Vp8lSeen s L2 v (some (fw, fh))))) ∨
+     (∃ a, pre = [a] ∧ alphaFlag = true ∧ a.name = FALPH ∧ AlphSeen s L2 a fw fh ∧ v.name = FVP8))
+
+/-- what the model has established about an ANMF chunk `c` of the region ending at `L1` -/
+def FrameSeen (L1 : Nat) (c : Chunk) (alphaFlag allow : Bool) (e2 : Nat) : Prop :=
+  16 ≤ c.len ∧ (s.get (c.off + 15)).toNat &&& 3 = (s.get (c.off + 15)).toNat ∧
+  ∃ inner, CChain s (min (c.off + c.len) L1) (c.off + 16) e2 inner ∧ (min (c.off + c.len) L1 ≤ e2 ∨ s.len ≤ e2) ∧
+    FrameBody s (min (c.off + c.len) L1) alphaFlag allow (1 + leToNat (s.read (c.off + 6) 3))
+      (1 + leToNat (s.read (c.off + 9) 3)) inner
+
+theorem frame_rel (cfg : Config) (L1 start : Nat) (r : RS) (pos : Nat) (cs : List Chunk) (c : Chunk)
+    (flags cw ch fuel : Nat) (hL : limOf r 1 pos = L1) (hp : Peeked s L1 start r 1 pos cs c) :
+    Tri (idealOps s kind) (sanitizeFrame cfg r flags cw ch fuel) pos
+      (fun o pos' => ∀ r', o = some r' → Keeps 1 r pos r' pos' ∧ limOf r' 1 pos' = L1 ∧ c.name = FANMF ∧
+        Open s L1 start r' 1 pos' cs c ∧ FrameSeen s L1 c (flagSet flags 16) cfg.allowUnknownChunks pos') := by
+  unfold sanitizeFrame
+  apply Tri.bind
+  apply Tri.mono (open_peeked s kind L1 start r 1 pos cs c FANMF (by decide) (by decide) hL hp)
+  intro r1 p1 ⟨k1, l1, hname, hopen1, hp1⟩
+  subst hp1
+  apply Tri.bind
+  apply Tri.mono (parseData_rel s kind r1 1 c.off Generated.schemaAnmfChunk (by decide) c (by rw [l1]; exact hopen1.cur s))
+  intro x q2 ⟨k2, hq2, hle2, ⟨rest, hparse⟩, hcur2⟩
+  obtain ⟨vs, r2⟩ := x
+  rw [l1] at hcur2
+  rw [anmf_len'] at hq2 hle2 hparse
+  subst hq2
+  rw [read16] at hparse
+  obtain ⟨hfl, hfw, hfh⟩ := anmf_parse_spec _ _ _ _ _ _ _ _ _ _ _ _ _ _ _ _ vs rest hparse
+  dsimp only at k2 hcur2 ⊢
+  rw [hfw, hfh]
+  have hl2 : limOf r2 1 (c.off + 16) = L1 := by rw [k2.lim (by decide), l1]
+  -- level 2 starts here
+  have hE1 : E1 (r2.set 2 .idle) (c.off + 16) = c.off + c.len := by
+    have hc := hcur2
+    unfold Cur at hc
+    simp only [RS.get] at hc
+    simp only [E1, RS.set]
+    cases h : r2.l1 with
+    | idle => rw [h] at hc; exact hc.elim
+    | peeking a b => rw [h] at hc; exact hc.elim
+    | body n l rem => rw [h] at hc; simp only [bodyRemaining]; exact hc.2.2.1
+    | padding n l => rw [h] at hc; simp only [bodyRemaining]; omega
+  have hE0 : E0 (r2.set 2 .idle) (c.off + 16) = L1 := by
+    have : E0 (r2.set 2 .idle) (c.off + 16) = E0 r2 (c.off + 16) := by simp [E0, RS.set]
+    rw [this]; simpa [limOf] using hl2
+  have hL2 : limOf (r2.set 2 .idle) 2 (c.off + 16) = min (c.off + c.len) L1 := by
+    simp only [limOf, hE1, hE0]
+  have hks : Keeps 2 r2 (c.off + 16) (r2.set 2 .idle) (c.off + 16) := keeps_set r2 2 (c.off + 16) .idle (by decide)
+  have hcl0 : Closed s (min (c.off + c.len) L1) (c.off + 16) (r2.set 2 .idle) 2 (c.off + 16) [] :=
+    Closed.start s _ _ 2 (c.off + 16) (by simp [RS.get, RS.set])
+  apply Tri.bind
+  -- the optional ALPH of the frame
+  have alph : Tri (idealOps s kind)
+      (if flagSet flags 16 = true then
+        (peekHeader (r2.set 2 .idle) 2).bind fun x =>
+          match x with
+          | (nm, r) =>
+            if nm = some FALPH then
+              (readHeader r 2 FALPH).bind fun r =>
+                (alphChunk r 2 (1 + leToNat [s.get (c.off + 6), s.get (c.off + 7), s.get (c.off + 8)])
+                  (1 + leToNat [s.get (c.off + 9), s.get (c.off + 10), s.get (c.off + 11)])).bind fun r => Prog.done (true, r)
+            else Prog.done (false, r)
+       else Prog.done (false, r2.set 2 .idle)) (c.off + 16)
+      (fun y p3 => Keeps 2 (r2.set 2 .idle) (c.off + 16) y.2 p3 ∧ limOf y.2 2 p3 = min (c.off + c.len) L1 ∧
+        ((y.1 = false ∧ Bnd s (min (c.off + c.len) L1) (c.off + 16) y.2 2 p3 []) ∨
+         (y.1 = true ∧ flagSet flags 16 = true ∧ ∃ a, Closed s (min (c.off + c.len) L1) (c.off + 16) y.2 2 p3 [a] ∧ a.name = FALPH ∧
+            AlphSeen s (min (c.off + c.len) L1) a (1 + leToNat [s.get (c.off + 6), s.get (c.off + 7), s.get (c.off + 8)])
+              (1 + leToNat [s.get (c.off + 9), s.get (c.off + 10), s.get (c.off + 11)])))) := by
+    split
+    · rename_i hfl16
+      apply Tri.bind
+      apply Tri.mono (peek_next s kind _ (c.off + 16) (r2.set 2 .idle) 2 (c.off + 16) [] (by decide) (by decide) hL2 hcl0)
+      intro y p3 ⟨k3, l3, hy⟩
+      obtain ⟨nm, r3⟩ := y
+      dsimp only at k3 l3 hy ⊢
+      rcases hy with ⟨y1, y2, y3, y4⟩ | ⟨a, y1, ypk⟩
+      · -- nothing to peek at
+        rw [y1]
+        simp only [reduceCtorEq, if_false]
+        exact Tri.done ⟨k3, l3, Or.inl ⟨rfl, Or.inl (Or.inl ⟨y2, y3⟩)⟩⟩
+      · rw [y1]
+        split
+        · rename_i hal
+          simp only [Option.some.injEq] at hal
+          apply Tri.bind
+          apply Tri.mono (open_peeked s kind _ (c.off + 16) r3 2 p3 [] a FALPH (by decide) (by decide) l3 ypk)
+          intro r4 p4 ⟨k4, l4, _, hop4, hp4⟩
+          apply Tri.bind
+          apply Tri.mono (alphChunk_rel s kind _ (c.off + 16) r4 2 p4 [] a _ _ (by decide) (by decide) l4 hop4 hp4)
+          intro r5 p5 ⟨k5, l5, cl5, seen5⟩
+          exact Tri.done ⟨(k3.trans k4).trans k5, l5, Or.inr ⟨rfl, hfl16, a, cl5, hal, seen5⟩⟩
+        · exact Tri.done ⟨k3, l3, Or.inl ⟨rfl, Or.inr ⟨a, ypk⟩⟩⟩
+    · exact Tri.done ⟨Keeps.refl _ _ _, hL2, Or.inl ⟨rfl, Or.inl hcl0⟩⟩
+  apply Tri.mono alph
+  intro y p3 ⟨k3, l3, hy⟩
+  obtain ⟨sawAlph, r3⟩ := y
+  dsimp only at k3 l3 hy ⊢
+  -- whichever way, level 2 is at a boundary after `pre`
+  have hb3 : ∃ pre, Bnd s (min (c.off + c.len) L1) (c.off + 16) r3 2 p3 pre ∧
+      ((sawAlph = false ∧ pre = []) ∨
+       (sawAlph = true ∧ flagSet flags 16 = true ∧ ∃ a, pre = [a] ∧ a.name = FALPH ∧
+          AlphSeen s (min (c.off + c.len) L1) a (1 + leToNat [s.get (c.off + 6), s.get (c.off + 7), s.get (c.off + 8)])
+            (1 + leToNat [s.get (c.off + 9), s.get (c.off + 10), s.get (c.off + 11)]))) := by
+    rcases hy with ⟨y1, y2⟩ | ⟨y1, y2, a, y3, y4, y5⟩
+    · exact ⟨[], y2, Or.inl ⟨y1, rfl⟩⟩
+    · exact ⟨[a], Or.inl y3, Or.inr ⟨y1, y2, a, rfl, y4, y5⟩⟩
+  obtain ⟨pre, hbnd, hpre⟩ := hb3
+  apply Tri.bind
+  apply Tri.mono (next_header_b s kind _ (c.off + 16) r3 2 p3 pre (by decide) (by decide) l3 hbnd)
+  intro z p4 ⟨k4, l4, v, hvname, hopen4, hp4⟩
+  obtain ⟨name, r4⟩ := z
+  dsimp only at k4 l4 hvname hopen4 ⊢
+  apply Tri.bind
+  have img : Tri (idealOps s kind)
+      (if name = FVP8 then skipData r4 2
+       else if name = FVP8L then
+         if sawAlph = true then Prog.fail WErr.invalidChunkLayout
+         else vp8lChunk r4 2 (some (1 + leToNat [s.get (c.off + 6), s.get (c.off + 7), s.get (c.off + 8)],
+           1 + leToNat [s.get (c.off + 9), s.get (c.off + 10), s.get (c.off + 11)]))
+       else Prog.fail WErr.invalidChunkLayout) p4
+      (fun r5 p5 => Keeps 2 r4 p4 r5 p5 ∧ limOf r5 2 p5 = min (c.off + c.len) L1 ∧
+        Closed s (min (c.off + c.len) L1) (c.off + 16) r5 2 p5 (pre ++ [v]) ∧
+        (v.name = FVP8 ∨ (sawAlph = false ∧ v.name = FVP8L ∧ Vp8lSeen s (min (c.off + c.len) L1) v
+          (some (1 + leToNat [s.get (c.off + 6), s.get (c.off + 7), s.get (c.off + 8)],
+            1 + leToNat [s.get (c.off + 9), s.get (c.off + 10), s.get (c.off + 11)]))))) := by
+    split
+    · rename_i hv8
+      apply Tri.mono (close_chunk s kind _ (c.off + 16) r4 2 p4 pre v (by decide) (by decide) l4 hopen4)
+      intro r5 p5 ⟨a, b, cl⟩
+      exact ⟨a, b, cl, Or.inl (by rw [← hvname]; exact hv8)⟩
+    · split
+      · rename_i hv8l
+        split
+        · exact Tri.fail
+        · rename_i hns
+          apply Tri.mono (vp8lChunk_rel s kind _ (c.off + 16) r4 2 p4 pre v _ (by decide) (by decide) l4 hopen4 hp4)
+          intro r5 p5 ⟨a, b, cl, seen⟩
+          exact ⟨a, b, cl, Or.inr ⟨by simpa using hns, by rw [← hvname]; exact hv8l, seen⟩⟩
+      · exact Tri.fail
+  apply Tri.mono img
+  intro r5 p5 ⟨k5, l5, cl5, himg⟩
+  apply Tri.mono (trailing_rel s kind cfg _ (c.off + 16) 2 true (by decide) (by decide) fuel r5 p5 (pre ++ [v]) l5 cl5)
+  intro o p6 ho r' hr'
+  obtain ⟨k6, l6, hidle6, us, hch6, hunk, hallow, hend⟩ := ho r' hr'
+  -- back on level 1
+  have hk2all : Keeps 2 r2 (c.off + 16) r' p6 := (((hks.trans k3).trans k4).trans k5).trans k6
+  have hE0' : E0 r' p6 = L1 := by
+    rw [hk2all.2.1 (by decide)]
+    simpa [limOf] using hl2
+  have hlim1 : limOf r' 1 p6 = L1 := by simpa [limOf] using hE0'
+  have hple : p6 ≤ L1 := by
+    have := pos_le_lim r' 1 p6 (by decide)
+    rw [hlim1] at this; exact this
+  have hcur' : Cur L1 r' 1 p6 c := cur_keep1 L1 r2 r' (c.off + 16) p6 c hcur2 hk2all hple
+  have hk1all : Keeps 1 r pos r' p6 := by
+    refine ⟨by have := k1.1; have := k2.1; have := hk2all.1; omega, ?_, fun h => by omega, ?_, fun h => by omega⟩
+    · intro _
+      rw [hk2all.2.1 (by decide), k2.2.1 (by decide), k1.2.1 (by decide)]
+    · intro _
+      have a := hk2all.2.2.2.1 (by decide)
+      have b := k2.2.2.2.1 (by decide)
+      have c' := k1.2.2.2.1 (by decide)
+      exact ⟨a.1.trans (b.1.trans c'.1), fun x => a.2 (b.2 (c'.2 x))⟩
+  refine ⟨hk1all, hlim1, hname, hopen1.recur s hcur', by omega, hfl, pre ++ [v] ++ us, hch6, hend, ?_⟩
+  · refine ⟨pre, v, us, rfl, hunk, hallow, ?_⟩
+    rw [read3, read3]
+    have e6 : c.off + 6 + 1 = c.off + 7 := by omega
+    have e7 : c.off + 6 + 2 = c.off + 8 := by omega
+    have e9 : c.off + 9 + 1 = c.off + 10 := by omega
+    have e10 : c.off + 9 + 2 = c.off + 11 := by omega
+    rw [e6, e7, e9, e10]
+    rcases hpre with ⟨h1, h2⟩ | ⟨h1, h2, a, h3, h4, h5⟩
+    · left
+      refine ⟨h2, ?_⟩
+      rcases himg with hv | ⟨_, hv, hs⟩
+      · exact Or.inl hv
+      · exact Or.inr ⟨hv, hs⟩
+    · right
+      rcases himg with hv | ⟨hf, _, _⟩
+      · exact ⟨a, h3, h2, h4, h5, hv⟩
+      · rw [h1] at hf; cases hf
+
+/-! ### the frame loop -/
+
+/-- an open chunk whose payload is consumed is a closed one -/
+theorem Open.closed {L start : Nat} {r : RS} {k pos : Nat} {cs : List Chunk} {c : Chunk} (h1k : 1 ≤ k)
+    (ho : Open s L start r k pos cs c) (n : Bytes) (l : Nat) (hst : r.get k = .padding n l) :
+    Closed s L start r k pos (cs ++ [c]) ∧ pos = c.off + c.len := by
+  obtain ⟨e, e1, e2, e3, e4⟩ := ho
+  unfold Cur at e4
+  rw [hst] at e4
+  obtain ⟨c1, c2, c3, c4⟩ := e4
+  exact ⟨Or.inr ⟨cs, c, e, rfl, e1, e2, e3, c4 h1k, by rw [hst, c1, c2], c3⟩, c3⟩
+
+/-- peeking from inside a chunk: refused while payload is left; otherwise the chunk is closed first -/
+theorem peek_open (L start : Nat) (r : RS) (k pos : Nat) (cs : List Chunk) (c : Chunk) (hk : k ≤ 2) (h1k : 1 ≤ k)
+    (hL : limOf r k pos = L) (ho : Open s L start r k pos cs c) :
+    Tri (idealOps s kind) (peekHeader r k) pos
+      (fun x pos' => Keeps k r pos x.2 pos' ∧ limOf x.2 k pos' = L ∧ pos = c.off + c.len ∧
+        ((x.1 = none ∧ x.2.get k = .idle ∧ CChain s L start pos' (cs ++ [c]) ∧ (L ≤ pos' ∨ s.len ≤ pos')) ∨
+         (∃ c', x.1 = some c'.name ∧ Peeked s L start x.2 k pos' (cs ++ [c]) c'))) := by
+  have hcur := ho.cur s
+  unfold Cur at hcur
+  cases hst : r.get k with
+  | idle => rw [hst] at hcur; exact hcur.elim
+  | peeking a b => rw [hst] at hcur; exact hcur.elim
+  | body n l rem =>
+    -- `peek_header` inside a body is InvalidInput
+    unfold peekHeader
+    apply Tri.bind
+    apply Tri.mono (readPadding_rel s kind r k pos hk)
+    intro r1 p1 ⟨_, hst1⟩
+    rw [hst] at hst1
+    rw [hst1.1]
+    exact Tri.fail
+  | padding n l =>
+    obtain ⟨hcl, hpos⟩ := ho.closed s h1k n l hst
+    apply Tri.mono (peek_next s kind L start r k pos (cs ++ [c]) hk h1k hL hcl)
+    intro x p1 ⟨a, b, d⟩
+    exact ⟨a, b, hpos, d⟩
+
+/-- a finished frame: an ANMF chunk whose inner chunks have been walked up to its end -/
+def FrameDone (L1 : Nat) (alphaFlag allow : Bool) (c : Chunk) : Prop :=
+  c.name = FANMF ∧ FrameSeen s L1 c alphaFlag allow (c.off + c.len)
+
+/-- how the frame loop leaves level 1: at the end of the region (or of the input), or with a peeked header that is
+    not an ANMF -/
+def LoopExit (L1 start : Nat) (r' : RS) (pos' : Nat) (all : List Chunk) : Prop :=
+  (r'.get 1 = .idle ∧ CChain s L1 start pos' all ∧ (L1 ≤ pos' ∨ s.len ≤ pos')) ∨
+  (∃ c', c'.name ≠ FANMF ∧ Peeked s L1 start r' 1 pos' all c')
+
+/-- the frame loop, re-entered after a frame whose ANMF chunk `c` is still open at level 1 -/
+theorem frames_from_open (cfg : Config) (L1 start : Nat) (flags cw ch fuel n : Nat) (r : RS) (pos : Nat)
+    (prev : List Chunk) (c : Chunk) (hL : limOf r 1 pos = L1) (ho : Open s L1 start r 1 pos prev c)
+    (hn : c.name = FANMF) (hseen : FrameSeen s L1 c (flagSet flags 16) cfg.allowUnknownChunks pos) :
+    Tri (idealOps s kind) (framesLoop cfg flags cw ch fuel n r) pos
+      (fun o pos' => ∀ r', o = some r' → Keeps 1 r pos r' pos' ∧ limOf r' 1 pos' = L1 ∧
+        ∃ fs', (∀ f ∈ c :: fs', FrameDone s L1 (flagSet flags 16) cfg.allowUnknownChunks f) ∧
+          LoopExit s L1 start r' pos' (prev ++ c :: fs')) := by
+  induction n generalizing r pos prev c with
+  | zero => exact Tri.done (by intro r' h; cases h)
+  | succ m ih =>
+    unfold framesLoop
+    apply Tri.bind
+    apply Tri.mono (peek_open s kind L1 start r 1 pos prev c (by decide) (by decide) hL ho)
+    intro x p1 ⟨k1, l1, hpos, hx⟩
+    obtain ⟨nm, r1⟩ := x
+    dsimp only at k1 l1 hx ⊢
+    have hdone : FrameDone s L1 (flagSet flags 16) cfg.allowUnknownChunks c := ⟨hn, by rw [← hpos]; exact hseen⟩
+    rcases hx with ⟨x1, x2, x3, x4⟩ | ⟨c', x1, xpk⟩
+    · rw [x1]
+      simp only [reduceCtorEq, if_false]
+      refine Tri.done ?_
+      intro r' hr'
+      simp only [Option.some.injEq] at hr'
+      subst hr'
+      refine ⟨k1, l1, [], ?_, Or.inl ⟨x2, x3, x4⟩⟩
+      intro f hf
+      simp only [List.mem_singleton] at hf
+      rw [hf]; exact hdone
+    · rw [x1]
+      split
+      · rename_i hanmf
+        simp only [Option.some.injEq] at hanmf
+        apply Tri.bind
+        apply Tri.mono (frame_rel s kind cfg L1 start r1 p1 (prev ++ [c]) c' flags cw ch fuel l1 xpk)
+        intro o p2 ho2
+        cases o with
+        | none => exact Tri.done (by intro r' h; cases h)
+        | some r2 =>
+          obtain ⟨k2, l2, hn2, hop2, hseen2⟩ := ho2 r2 rfl
+          dsimp only
+          apply Tri.mono (ih r2 p2 (prev ++ [c]) c' l2 hop2 hn2 hseen2)
+          intro o3 p3 ho3 r' hr'
+          obtain ⟨k3, l3, fs', hall, hexit⟩ := ho3 r' hr'
+          refine ⟨(k1.trans k2).trans k3, l3, c' :: fs', ?_, ?_⟩
+          · intro f hf
+            rcases List.mem_cons.mp hf with e | e
+            · rw [e]; exact hdone
+            · exact hall f e
+          · have : prev ++ c :: c' :: fs' = prev ++ [c] ++ c' :: fs' := by simp
+            rw [this]; exact hexit
+      · rename_i hno
+        refine Tri.done ?_
+        intro r' hr'
+        simp only [Option.some.injEq] at hr'
+        subst hr'
+        refine ⟨k1, l1, [], ?_, Or.inr ⟨c', ?_, xpk⟩⟩
+        · intro f hf
+          simp only [List.mem_singleton] at hf
+          rw [hf]; exact hdone
+        · intro h; exact hno (by rw [h])
+
+/-- the frame loop entered on a peeked ANMF header -/
+theorem frames_from_peeked (cfg : Config) (L1 start : Nat) (flags cw ch fuel n : Nat) (r : RS) (pos : Nat)
+    (done : List Chunk) (c : Chunk) (hL : limOf r 1 pos = L1) (hp : Peeked s L1 start r 1 pos done c)
+    (hn : c.name = FANMF) :
+    Tri (idealOps s kind) (framesLoop cfg flags cw ch fuel n r) pos
+      (fun o pos' => ∀ r', o = some r' → Keeps 1 r pos r' pos' ∧ limOf r' 1 pos' = L1 ∧
+        ∃ fs', (∀ f ∈ c :: fs', FrameDone s L1 (flagSet flags 16) cfg.allowUnknownChunks f) ∧
+          LoopExit s L1 start r' pos' (done ++ c :: fs')) := by
+  cases n with
+  | zero => exact Tri.done (by intro r' h; cases h)
+  | succ m =>
+    unfold framesLoop
+    apply Tri.bind
+    apply Tri.mono (peek_again s kind L1 start r 1 pos done c (by decide) (by decide) hL hp)
+    intro x p1 ⟨k1, l1, hpk, hnm⟩
+    obtain ⟨nm, r1⟩ := x
+    dsimp only at k1 l1 hpk hnm ⊢
+    rw [hnm, hn]
+    simp only [if_true]
+    apply Tri.bind
+    apply Tri.mono (frame_rel s kind cfg L1 start r1 p1 done c flags cw ch fuel l1 hpk)
+    intro o p2 ho2
+    cases o with
+    | none => exact Tri.done (by intro r' h; cases h)
+    | some r2 =>
+      obtain ⟨k2, l2, hn2, hop2, hseen2⟩ := ho2 r2 rfl
+      dsimp only
+      apply Tri.mono (frames_from_open s kind cfg L1 start flags cw ch fuel m r2 p2 done c l2 hop2 hn2 hseen2)
+      intro o3 p3 ho3 r' hr'
+      obtain ⟨k3, l3, fs', hall, hexit⟩ := ho3 r' hr'
+      exact ⟨(k1.trans k2).trans k3, l3, fs', hall, hexit⟩
+
+/-- ANIM and the frames -/
+theorem animated_rel (cfg : Config) (L1 start : Nat) (r : RS) (pos : Nat) (cs : List Chunk) (flags cw ch fuel : Nat)
+    (hL : limOf r 1 pos = L1) (hc : Closed s L1 start r 1 pos cs) :
+    Tri (idealOps s kind) (sanitizeAnimated cfg r flags cw ch fuel) pos
+      (fun o pos' => ∀ r', o = some r' → Keeps 1 r pos r' pos' ∧ limOf r' 1 pos' = L1 ∧
+        ∃ anim f fs, anim.name = FANIM ∧ anim.len = 6 ∧
+          (∀ x ∈ f :: fs, FrameDone s L1 (flagSet flags 16) cfg.allowUnknownChunks x) ∧
+          LoopExit s L1 start r' pos' (cs ++ anim :: f :: fs)) := by
+  unfold sanitizeAnimated
+  apply Tri.bind
+  apply Tri.mono (next_named s kind L1 start r 1 pos cs FANIM (by decide) (by decide) hL hc)
+  intro r1 p1 ⟨k1, l1, anim, han, hop1, hp1⟩
+  apply Tri.bind
+  apply Tri.mono (parseData_rel s kind r1 1 p1 Generated.schemaAnimChunk (by decide) anim (by rw [l1]; exact hop1.cur s))
+  intro x p2 ⟨k2, hp2, hle2, _, hcur2⟩
+  obtain ⟨vs, r2⟩ := x
+  rw [l1] at hcur2
+  rw [anim_len] at hp2 hle2
+  dsimp only at k2 hcur2 ⊢
+  have l2 : limOf r2 1 p2 = L1 := by rw [k2.lim (by decide), l1]
+  apply Tri.bind
+  apply Tri.mono (peek_open s kind L1 start r2 1 p2 cs anim (by decide) (by decide) l2 (hop1.recur s hcur2))
+  intro y p3 ⟨k3, l3, hpos, hy⟩
+  obtain ⟨nm, r3⟩ := y
+  dsimp only at k3 l3 hy ⊢
+  have hlen : anim.len = 6 := by omega
+  rcases hy with ⟨y1, _⟩ | ⟨c', y1, ypk⟩
+  · rw [y1]
+    simp only [reduceCtorEq, if_false]
+    exact Tri.fail
+  · rw [y1]
+    split
+    · rename_i hanmf
+      simp only [Option.some.injEq] at hanmf
+      apply Tri.mono (frames_from_peeked s kind cfg L1 start flags cw ch fuel fuel r3 p3 (cs ++ [anim]) c' l3 ypk hanmf)
+      intro o p4 ho r' hr'
+      obtain ⟨k4, l4, fs', hall, hexit⟩ := ho r' hr'
+      refine ⟨((k1.trans k2).trans k3).trans k4, l4, anim, c', fs', han, hlen, hall, ?_⟩
+      have : cs ++ anim :: c' :: fs' = cs ++ [anim] ++ c' :: fs' := by simp
+      rw [this]; exact hexit
+    · exact Tri.fail
 
 end
 end MediaSan.Webp
